@@ -1031,6 +1031,26 @@ fn silence_sozu_logger() {
     }
 }
 
+/// pseudo batch index of the corpus replay in witnesses
+const CORPUS_REPLAY: u64 = u64::MAX;
+
+/// the fuzz corpus as it is and at every prefix length (done first: a run cut short by the
+/// budget must still have replayed it)
+fn corpus_replay(ctx: &Ctx, seed: u64, corpus: &[(String, Vec<u8>)], r: &mut Report) {
+    silence_sozu_logger();
+    let c = Case { ctx, seed, batch: CORPUS_REPLAY, class: "corpus_replay" };
+    let mut t = Tally::default();
+    let mut k = 0u64;
+    let mut rng = Rng::for_case(seed, 0xC15A, CORPUS_REPLAY);
+    for (_, bytes) in corpus {
+        for max in [16_384, (1 << 24) - 1] {
+            truncations(&c, &mut rng, bytes, max, &mut k, &mut t, r);
+        }
+        r.obs("corpus_files_replayed", 1);
+    }
+    t.flush(r);
+}
+
 fn run_batch(ctx: &Ctx, seed: u64, plan: &Plan, corpus: &[(String, Vec<u8>)], batch: u64, r: &mut Report) {
     silence_sozu_logger();
     let mut t = Tally::default();
@@ -1073,15 +1093,6 @@ fn run_batch(ctx: &Ctx, seed: u64, plan: &Plan, corpus: &[(String, Vec<u8>)], ba
         let c = Case { ctx, seed, batch, class: "corpus" };
         if corpus.is_empty() {
             return;
-        }
-        // first pass over the files: as they are and at every prefix; later batches: mutants
-        if b == 0 {
-            for (_, bytes) in corpus {
-                for max in [16_384, (1 << 24) - 1] {
-                    truncations(&c, &mut rng, bytes, max, &mut k, &mut t, r);
-                }
-                r.obs("corpus_files_replayed", 1);
-            }
         }
         while t.inputs < INPUTS_PER_BATCH {
             let (_, bytes) = rng.pick(corpus);
@@ -1222,13 +1233,18 @@ pub fn run_parser(ctx: &Ctx, rep: &mut Report) {
             let wseed = w["seed"].as_u64().unwrap_or(seed);
             if let Some(c) = w["case"].as_u64() {
                 if seen.insert((wseed, c)) {
-                    run_batch(ctx, wseed, &plan, &corpus, c, rep);
+                    if c == CORPUS_REPLAY {
+                        corpus_replay(ctx, wseed, &corpus, rep);
+                    } else {
+                        run_batch(ctx, wseed, &plan, &corpus, c, rep);
+                    }
                 }
             }
         }
         return;
     }
 
+    corpus_replay(ctx, ctx.seed, &corpus, rep);
     let total = plan.total();
     // interleave the classes so that a run cut short by the budget still saw all of them
     let order = |i: u64| -> u64 {
